@@ -128,7 +128,7 @@ def _race(b, tier):
     if key not in _RACE:
         base = BASES[b]
         cands = T.race_candidates(base)
-        depth, cap = (2, 1500) if tier == 'quick' else (3, 100000)
+        depth, cap = (2, 1500) if tier == 'quick' else (3, 40000)
         _RACE[key] = (cands, T.race_schedules(base, cands, depth, cap))
     return _RACE[key]
 
@@ -246,12 +246,12 @@ def make_case(family, i, rng, tier):
         return case
     if family == 'race':
         for b in range(len(BASES)):
-            scheds = _race(b, tier)[1]
+            cands, scheds = _race(b, tier)
             if i < len(scheds):
                 break
             i -= len(scheds)
         case = copy.deepcopy(BASES[b])
-        case['schedule'] = copy.deepcopy(scheds[i])
+        case['schedule'] = T.race_schedule(cands, scheds[i])
         return case
     if family == 'base_random':
         # seeded random-walk / PCT schedules over the hand-written bases
